@@ -10,7 +10,7 @@ grep -E "^$id quick|SELF-CHECK" /tmp/af.$$ | cut -c1-160
 python3 -c "
 import json;d=json.load(open('/verif/evidence/$id.json'));print('  remaining:', d['coverage']['failing_cases_by_signature'])"
 t=$(/verif/tools_tests.sh "$@" | tail -1); echo "  tests: $t"
-if echo "$t" | grep -q "passed" && ! echo "$t" | grep -q "failed"; then
+if echo "$t" | grep -q "passed" && ! echo "$t" | grep -qE "[0-9]+ (failed|error)"; then
   cd /repo && git commit -qaF "$msg" && git log --oneline | head -1
 else
   echo "  NOT COMMITTED"; cd /repo && git checkout -- .
